@@ -889,7 +889,7 @@ def id_namespace_specs():
                         "teams": [{"name": "1", "targets": [1], "workers": [{"name": "v", "skills": {"inspect": 1.0}, "cost": 1.0}]},
                                   {"name": "2", "targets": [0, 1], "workers": [{"name": "w", "skills": {"assemble": 1.0, "inspect": 1.0}, "fskills": {"machine": 1.0}, "cost": 1.0}]}],
                         "label": "id-namespace:workplace-id=%s:%s" % (wp_id, w_insp)})
-    for works in ((1.0, 2.0, 3.0), (3.0, 2.0, 1.0), (2.0, 2.0, 2.0), (2.0, 1.0, 3.0)):
+    for works in ((1.0, 2.0, 3.0), (3.0, 2.0, 1.0), (2.0, 2.0, 2.0), (2.0, 1.0, 3.0), (1.0, 3.0, 2.0), (3.0, 1.0, 2.0)):
         out.append({"tasks": [{"name": "weld", "id": "T0", "work": works[0]}, {"name": "weld", "id": "T1", "work": works[1]}, {"name": "paint", "id": "T2", "work": works[2]}], "links": [],
                     "teams": [{"name": "TM0", "targets": [0], "workers": [{"name": "W0", "skills": {"weld": 1.0}, "cost": 1.0}]},
                               {"name": "TM1", "targets": [1, 2], "workers": [{"name": "W1", "skills": {"weld": 1.0, "paint": 1.0}, "cost": 2.0}]}],
@@ -991,6 +991,18 @@ def large_specs():
     teams = [{"name": "TA", "targets": list(range(0, 10)), "workers": [{"name": "a%d" % i, "skills": {"Q%02d" % j: 1.0 for j in range(10)}, "cost": 1.0} for i in range(2)]},
              {"name": "TB", "targets": list(range(10, 20)), "workers": [{"name": "b%d" % i, "skills": {"Q%02d" % j: 1.0 for j in range(10, 20)}, "cost": 2.0} for i in range(2)]}]
     out.append({"tasks": tasks, "links": [], "teams": teams, "label": "large:queue-of-twenty"})
+    # (L7) a crew of twelve where everybody excavates and only the foreman also surveys; the survey and six excavations are open at once
+    tasks = [{"name": "survey", "work": 3.0}] + [{"name": "dig%d" % i, "work": float(4 + i % 3)} for i in range(6)] + [{"name": "fill", "work": 2.0}]
+    links = [[0, 7, "FS"]]
+    digs = {"dig%d" % i: 1.0 for i in range(6)}
+    ws = [{"name": "foreman", "skills": dict(digs, survey=1.0, fill=1.0), "cost": 3.0}] + [{"name": "hand%02d" % i, "skills": dict(digs), "cost": 1.0} for i in range(11)]
+    out.append({"tasks": tasks, "links": links, "teams": [{"name": "TM0", "targets": list(range(len(tasks))), "workers": ws}], "label": "large:crew12-one-specialist"})
+    # (L8) three robots, twelve welders of whom four apprentices (the least skilled, so first under the default worker rule) have no robot licence
+    tasks = [{"name": "weld", "id": "weld%d" % i, "work": float(6 + i), "nf": True} for i in range(3)]
+    comps = [{"name": "part%d" % i, "tasks": [i], "space": 1.0} for i in range(3)]
+    wps = [{"name": "cell", "cap": 3.0, "targets": [0, 1, 2], "facilities": [{"name": "robot", "id": "robot%d" % i, "skills": {"weld": 1.0}, "cost": 2.0} for i in range(3)]}]
+    ws = [{"name": "apprentice%d" % i, "skills": {"weld": 0.5}, "cost": 1.0} for i in range(4)] + [{"name": "welder%d" % i, "skills": {"weld": 1.0 + 0.1 * i}, "fskills": {"robot": 1.0}, "cost": 2.0} for i in range(8)]
+    out.append({"tasks": tasks, "links": [], "components": comps, "workplaces": wps, "teams": [{"name": "TM0", "targets": [0, 1, 2], "workers": ws}], "label": "large:welders12-apprentices-first"})
     return out
 
 
@@ -1021,4 +1033,22 @@ def ff_chain_specs():
                     sp["hash"] = list(range(n + 1))[::-1]
                 sp["label"] = "ff-chain:%d:%s:%s" % (n, k0, "reversed" if rev else "forward")
                 out.append(sp)
+    return out
+
+
+def sectioned_workplace_specs():
+    """a machining bay that is a section (child workplace) of a hall: pipe: cut@bay -> inspect@hall; a frame fills the hall for a while; the bay's machine
+    could do the inspection as well but the inspection is given to the hall only"""
+    out = []
+    for asm in (6.0, 3.0):
+        for parent in (1, None):
+            wps = [{"name": "hall", "cap": 1.0, "targets": [2, 1], "facilities": [{"name": "rig", "skills": {"assemble": 1.0, "inspect": 1.0}, "cost": 1.0}]},
+                   {"name": "bay", "cap": 1.0, "targets": [0], "facilities": [{"name": "cnc", "skills": {"cut": 1.0, "inspect": 1.0}, "cost": 1.0}]}]
+            if parent is not None:
+                wps[1]["parent"] = 0
+            out.append({"tasks": [{"name": "cut", "work": 2.0, "nf": True}, {"name": "inspect", "work": 2.0, "nf": True}, {"name": "assemble", "work": asm, "nf": True}], "links": [[0, 1, "FS"]],
+                        "components": [{"name": "pipe", "tasks": [0, 1], "space": 1.0}, {"name": "frame", "tasks": [2], "space": 1.0}], "workplaces": wps,
+                        "teams": [{"name": "crew", "targets": [0, 1, 2], "workers": [{"name": "fitter", "skills": {"assemble": 1.0}, "fskills": {"rig": 1.0}, "cost": 1.0},
+                                                                                  {"name": "machinist", "skills": {"cut": 1.0, "inspect": 1.0}, "fskills": {"cnc": 1.0, "rig": 1.0}, "cost": 1.0}]}],
+                        "label": "sectioned-workplace:%s:%s" % (asm, "bay-in-hall" if parent is not None else "separate")})
     return out
